@@ -1,7 +1,7 @@
 /-
 Model of the shipped lattice constructors of `lattices/src/*.rs` for C04:
 `Max<u64>`, `Min<u64>`, `()`, `Conflict<u64>`, `SetUnion<_>`, `MapUnion<_>`, `WithBot<_>`,
-`WithTop<_>`, `Pair<_,_>` (`#[derive(Lattice)]`: field-wise), `VecUnion<_>`,
+`WithTop<_>`, `Pair<_,_>` (`#[derive(Lattice)]`: field-wise), `VecUnion<_>`, `DomPair<Max<u64>,_>`,
 by recursion on a type descriptor (`Shape`) so that every nesting is covered.
 
 Representations.  A receiver (`Self`) is either a de-duplicating set/map backing
@@ -22,6 +22,7 @@ inductive Shape
   | maxN | minN | unit | conflict | set
   | map (s : Shape) | withBot (s : Shape) | withTop (s : Shape)
   | pair (s t : Shape) | vec (s : Shape)
+  | domPair (s : Shape)      -- `DomPair<Max<u64>, _>`
 deriving Repr, DecidableEq, Inhabited
 
 /-- receiver representation: `vec = true` at a `set` position means a `Vec` receiver -/
@@ -45,6 +46,7 @@ def RT.kid : RT → Nat → RT
   | .withTop s => Option (Val s)
   | .pair s t => Val s × Val t
   | .vec s => List (Val s)
+  | .domPair s => Nat × Val s
 
 namespace Lat
 
@@ -64,6 +66,7 @@ def isBot : (s : Shape) → Val s → Bool
     | some x => isBot s x
   | .pair s t, v => isBot s (v : Val s × Val t).1 && isBot t (v : Val s × Val t).2
   | .vec _, v => List.isEmpty v                       -- `self.vec.is_empty()`
+  | .domPair s, v => ((v : Nat × Val s).1 == 0) && isBot s (v : Nat × Val s).2   -- `key.is_bot() && val.is_bot()`
 
 /-- `LatticeFrom::lattice_from` into the receiver representation `r` -/
 def from_ : (s : Shape) → RT → Val s → Val s
@@ -82,6 +85,7 @@ def from_ : (s : Shape) → RT → Val s → Val s
     | some x => some (from_ s (r.kid 0) x)
   | .pair s t, r, v => (from_ s (r.kid 0) (v : Val s × Val t).1, from_ t (r.kid 1) (v : Val s × Val t).2)
   | .vec s, r, v => List.map (from_ s (r.kid 0)) (v : List (Val s))
+  | .domPair s, r, v => ((v : Nat × Val s).1, from_ s (r.kid 0) (v : Nat × Val s).2)
 
 /-- `VecUnion::merge` on the intersecting indices + the converted tail of `other` -/
 def vecMerge {V : Type} (mrg : V → V → V × Bool) (frm : V → V) : List V → List V → List V × Bool
@@ -128,6 +132,15 @@ def merge : (s : Shape) → RT → Val s → Val s → Val s × Bool
     let m2 := merge t (r.kid 1) (a : Val s × Val t).2 (b : Val s × Val t).2
     ((m1.1, m2.1), m1.2 || m2.2)
   | .vec s, r, a, b => vecMerge (merge s (r.kid 0)) (from_ s (r.kid 0)) a b
+  | .domPair s, r, a, b =>
+    -- `match self.key.partial_cmp(&other.key)` with a totally ordered key (`Max<u64>`):
+    -- `Equal => self.val.merge(other.val)`, `Less => { *self = lattice_from(other); true }`, `Greater => false`
+    if (a : Nat × Val s).1 = (b : Nat × Val s).1 then
+      let m := merge s (r.kid 0) (a : Nat × Val s).2 (b : Nat × Val s).2
+      (((a : Nat × Val s).1, m.1), m.2)
+    else if (a : Nat × Val s).1 < (b : Nat × Val s).1 then
+      (((b : Nat × Val s).1, from_ s (r.kid 0) (b : Nat × Val s).2), true)
+    else (a, false)
 
 end Lat
 end HvLatSpec
